@@ -73,6 +73,12 @@ def h_search(eng, fn, nmax, depth, with_d, fixed_n=None, vary_bounds=True, built
     if fn == 'find_irrelevant_type':
         X = tp.TypeParameter('TV', bound=table.classes[0])
         qs = qs + [X, tp.TypeParameter('TU')]
+    elif depth == 1:
+        # queries mentioning a type variable of the enclosing declaration that happens to be named like the
+        # parameter a generic class forwards to its supertype (variable capture)
+        g, h = table.gens[0], table.gens[1]
+        yv = tp.TypeParameter('Y', h.type_parameters[0].variance, h.type_parameters[0].bound)
+        qs = qs + [g.new([yv]), g.new([tp.WildCardType(yv, tp.Covariant)])]
     if qshapes is not None:
         qs = [x for x in qs if show(w.snap(x)) in qshapes]
     q = qs[int(eng.fresh_int(0, len(qs) - 1, 'query'))]
